@@ -605,6 +605,9 @@ func run(c Case, c09 bool) (feat map[string]int, err error) {
 				return nil, fmt.Errorf("harness: the successor of sub/%d is not registered", idx)
 			}
 			h.model[op.I] = true
+			// an event that the event stream was still forwarding to the predecessor when it unregistered
+			// is a dead letter addressed to this id (allowed, like for any subscriber that left)
+			h.departed[s.pid.ID] = true
 			h.add(exp{kind: "life", text: "stopped:" + s.pid.ID})
 			h.note("successor-under-the-same-id-subscribed-from-Stopped")
 		case "stopsub":
